@@ -28,11 +28,11 @@ func prop(id, title string, rules []string, explain string, notDecided []string,
 
 func init() {
 	prop("C01", "Add/Sub/Mul/Quo/Abs/Neg/Round return the exactly rounded result",
-		[]string{"C01.R1", "C01.R2", "C01.R3", "C01.R4", "C01.R5", "C01.R6", "C20.R1", "C20.R2", "C09.R1", "C05.R4", "C17.R3", "C01.R7", "C10.R3"},
+		[]string{"C01.R1", "C01.R2", "C01.R3", "C01.R4", "C01.R5", "C01.R6", "C20.R1", "C20.R2", "C09.R1", "C05.R4", "C17.R3", "C01.R7", "C10.R3", "C07.R9", "C02.R6"},
 		"Decides the wiring of the rounding kernel for all inputs: the sign that reaches every rounding decision is the sign of the value being rounded; the half comparison is made on the division remainder and a non-zero remainder always raises Inexact or is folded into the coefficient (no lost remainder); single-rounding operations round at most once per path and never skip it; Precision 0 cannot reach the digit-discarding division; the eight decision functions have exactly their modes' truth tables (finite-domain evaluation) and every digit-dropping site consults them.",
 		[]string{"numeric equality with the once-rounded exact result (alignment, digit arithmetic, carries) — quantifies over coefficient values"})
 	prop("C02", "Condition flags describe exactly what happened to the result",
-		[]string{"C02.R1", "C02.R2", "C02.R3", "C02.R4", "C02.R5", "C01.R2", "C01.R7"},
+		[]string{"C02.R1", "C02.R2", "C02.R3", "C02.R4", "C02.R5", "C01.R2", "C01.R7", "C02.R6"},
 		"Decides: the flag set is closed (12 single bits; only | & &^ ^ on Condition values, so no 13th bit for any input); Inexact⇒Rounded, Overflow⇒Inexact and the Underflow guard hold by construction at every raise site; no Condition produced by a callee is dropped or clobbered outside a reasoned table; the division conditions sit under exactly their specification guards; a non-zero division remainder always raises Inexact.",
 		[]string{"\"Inexact iff the result differs from the exact one\" beyond the remainder rule; over-reporting of Rounded"})
 	prop("C03", "Traps turn raised conditions into errors and never change or hide results",
@@ -40,11 +40,11 @@ func init() {
 		"Decides the error plumbing on all paths: GoError returns an error iff a system or trapped bit is set (path enumeration); every ErrDecimal wrapper performs exactly the same-named Context call behind the sticky-error guard and accumulates flags; every return of the single-rounding operations passes the trap filter with the flags it returns; errors are never compared with each other; composite functions test ed.Err() before every result-delivering return and destination write; wrapper-driven loops terminate under any trap set; the parsing step does not trap by itself — its conditions reach the caller's single goError.",
 		[]string{"equality of composite-function results across trap sets when no error is returned (depends on which internal conditions arise)"})
 	prop("C04", "Operations are total: no panic and no hang on any well-formed input",
-		[]string{"C04.R1", "C04.R2", "C04.R3", "C04.R4", "C04.R5", "C04.R6", "C01.R3", "C07.R5", "C07.R6", "C12.R5"},
+		[]string{"C04.R1", "C04.R2", "C04.R3", "C04.R4", "C04.R5", "C04.R6", "C01.R3", "C07.R5", "C07.R6", "C12.R5", "C04.R7", "C04.R8"},
 		"Decides: the reachable explicit panics are the three tabled, unreachable ones (with exhaustive switch companions); no possibly-nil pointer reaches a dereferencing parameter; every big-integer divisor is a power of ten, a non-zero constant or behind the operand's IsZero test, and table indices are guarded; every API-reachable loop is counted, error-checked on each cycle, or tabled with its variant; the parser rejects signs inside the digit string, keeps a NaN form on error and range-checks finite results.",
 		[]string{"implicit run-time panics that depend on values beyond the listed index/divisor/nil obligations (inside math/big), memory exhaustion, slow-but-finite operations at the ±100000 limits"})
 	prop("C05", "Any argument may alias the destination or another argument",
-		[]string{"C05.R1", "C05.R2", "C05.R3", "C05.R4", "C06.R8", "C06.R10", "C06.R11", "C16.R7"},
+		[]string{"C05.R1", "C05.R2", "C05.R3", "C05.R4", "C06.R8", "C06.R10", "C06.R11", "C16.R7", "C05.R5"},
 		"Decides the structural cause of alias-safety for every function with a destination role and a same-typed operand role: assuming they are the same object, no path reads an operand field after a non-copy write of that field through the destination (flow- and field-sensitive over SSA, bottom-up callee summaries, the repo's p==q / p!=nil guards prune paths); BigInt wrappers use distinct inner temporaries and the innerOrAlias helpers exactly where math/big compares pointers.",
 		[]string{"alias behaviour inside math/big (trusted)"},
 		"math/big methods are alias-safe when they can see the aliasing (same *big.Int or same backing array)", "hand summaries of (*BigInt).inner* / noescape; updateInner(src) copies src")
@@ -54,11 +54,11 @@ func init() {
 		[]string{"nothing numeric is needed for this property"},
 		"a Condition carrying a System* flag always becomes an error (C03.R1/R3), so such returns need not deliver a complete value", "math/big mod/ref table", "hand summaries of the unsafe helpers")
 	prop("C07", "Every finite result fits the context it was computed in",
-		[]string{"C07.R1", "C07.R2", "C07.R3", "C07.R4", "C07.R5", "C07.R6", "C01.R3", "C16.R5", "C07.R7"},
+		[]string{"C07.R1", "C07.R2", "C07.R3", "C07.R4", "C07.R5", "C07.R6", "C01.R3", "C16.R5", "C07.R7", "C07.R8", "C07.R9"},
 		"Decides: in every rounding operation the value delivered by each return has passed a setExponent range check after its last coefficient/exponent write (or is a whole-value copy, a small constant, or a tabled exception with its invariant); rounding increments are renormalised through roundAddOne; signed inputs to coefficients are sign-normalised; Context.Reduce strips after rounding.",
 		[]string{"that Rounder.Round removes exactly NumDigits−Precision digits (digit arithmetic)"})
 	prop("C08", "Special values follow the decimal arithmetic rules in every operation",
-		[]string{"C08.R1", "C08.R2", "C08.R3", "C08.R4", "C08.R5", "C08.R6", "C08.R7", "C08.R8", "C08.R9"},
+		[]string{"C08.R1", "C08.R2", "C08.R3", "C08.R4", "C08.R5", "C08.R6", "C08.R7", "C08.R8", "C08.R9", "C02.R6"},
 		"Decides: every exported Context operation tests all its operands for NaN first and returns setAsNaN with the same operands; setAsNaN's selection order and signaling behaviour (path enumeration); NaN results and invalid-class flags are paired both ways, DivisionByZero with infinity; copied unsigned specials/zeros get their sign from the operands; the exact-zero sum sign is c.Rounding == RoundFloor; a NaN the library generates never takes a sign afterwards.",
 		[]string{"the complete result table for finite × special operand combinations beyond these pairings"})
 	prop("C09", "Quantize and RoundToIntegral produce the requested exponent, correctly rounded",
@@ -78,11 +78,11 @@ func init() {
 		"Decides: every digit of the ln 10 and 1/ln 10 literals (≈2200 each; the suite uses ≤ 50) equals an independent big-integer computation; the precision table doubles from 1 and is fetched at the working precision; the exact-by-definition shortcuts (exp 0, ln 1, x**0, integer exponents) exist with zero flags; overflow/underflow reports are confined to their guards.",
 		[]string{"one-ulp accuracy: series truncation and guard-digit sufficiency are statements about real numbers"})
 	prop("C13", "Text and binary encodings round-trip every Decimal exactly",
-		[]string{"C13.R1", "C13.R2", "C13.R3", "C13.R4", "C13.R5", "C06.R2"},
+		[]string{"C13.R1", "C13.R2", "C13.R3", "C13.R4", "C13.R5", "C06.R2", "C07.R8"},
 		"Decides writer/reader table agreement: special-name, sign and exponent-marker tokens written by the formatter are the ones the parser accepts and map back to the same Form; Compose and Decompose agree on the form byte and Compose assigns the whole value; the float path uses shortest 64-bit formatting and the package parser; all text producers share one formatter; setExponent applies the package limits to the sum of the exponent terms (so the scientific form of a long coefficient parses back) and stores only exponents within them.",
 		[]string{"digit/point placement round-trip for every exponent (string arithmetic in fmtE/fmtF vs the parser)"})
 	prop("C14", "String is the GDA scientific string; parsing accepts exactly its grammar",
-		[]string{"C04.R5", "C14.R2", "C14.R3", "C14.R4", "C14.R5", "C14.R6", "C14.R7", "C14.R8", "C14.R9", "C14.R10", "C14.R11", "C13.R1", "C13.R5", "C07.R5"},
+		[]string{"C04.R5", "C14.R2", "C14.R3", "C14.R4", "C14.R5", "C14.R6", "C14.R7", "C14.R8", "C14.R9", "C14.R10", "C14.R11", "C13.R1", "C13.R5", "C07.R5", "C14.R12", "C07.R8"},
 		"Decides: the digit string is sign-free when it reaches BigInt.SetString; special names are alternatives; payload and exponent are validated by strconv with error edges returning errors (base 10, 32 bit); every text entry point goes through the one parser; parse errors return no partial value; plain notation is chosen exactly under exponent ≤ 0 ∧ adjusted ≥ −6 with the documented zero exception; fmtE prints the adjusted exponent; on the error edge of the parsing step the receiver is overwritten with the shared NaN.",
 		[]string{"full language equality with the GDA grammar (acceptance of digit strings is delegated to strconv/math/big)", "Format's flag/width layout beyond the padding width and the sign-before-zeros order"})
 	prop("C15", "Cmp is the exact numeric order and CmpTotal is the documented total order",
@@ -90,11 +90,11 @@ func init() {
 		"Decides: the Form constants have the order CmpTotal relies on and cmpOrder is ±(Form+1); on every path of Decimal.Cmp that returns a coefficient comparison the result is negated exactly for negative operands and the larger-exponent side is the rescaled one; CmpTotal's exponent tie-break flips for negatives (path enumeration); comparisons write nothing; Context.Cmp has the NaN prologue.",
 		[]string{"order axioms over triples; correctness of the digit-count shortcut (numeric)"})
 	prop("C16", "BigInt behaves exactly like math/big.Int",
-		[]string{"C16.R1", "C16.R2", "C16.R3", "C16.R4", "C16.R5", "C16.R6", "C16.R7", "C18.R5", "C05.R1", "C05.R2", "C06.R3"},
+		[]string{"C16.R1", "C16.R2", "C16.R3", "C16.R4", "C16.R5", "C16.R6", "C16.R7", "C18.R5", "C05.R1", "C05.R2", "C06.R3", "C05.R5", "C16.R8"},
 		"Decides wrapper discipline for all 60+ methods: same-named math/big call on the receiver's view with parameters' views in order; every written view is written back with updateInner on every successful path and operands never are; zero is never negative on any fast path; fast paths read operands before writing (RAW) and never write them; the views written by the math/big routines that can leave a sign on a zero magnitude are normalised before the write-back.",
 		[]string{"value equality of the uint64 fast-path arithmetic with math/big; text and bit-length results"})
 	prop("C17", "Integer and float conversions and Modf are exact",
-		[]string{"C17.R1", "C17.R2", "C17.R3", "C13.R3", "C05.R1", "C06.R2"},
+		[]string{"C17.R1", "C17.R2", "C17.R3", "C13.R3", "C05.R1", "C06.R2", "C05.R5"},
 		"Decides: Int64 extracts the coefficient only behind the finite, integral and both range tests, each failing into an error, with bounds built from the int64 limits; Modf's outputs copy sign and form from the receiver, split by 10^(−exponent) with exponents 0 / receiver's, are alias-safe and completely assigned; the float path constants.",
 		[]string{"the ×10 loop and MinInt64 cast arithmetic in Int64; nearest-float claim (delegated to strconv)"})
 	prop("C18", "A Context and its operands can be shared by concurrent goroutines",
@@ -107,7 +107,7 @@ func init() {
 		"Decides: no nil pointer reaches NumDigits' comparison on the >128-bit negative path; Decimal.Reduce's count reads the operand, never the destination; Context.Reduce strips after rounding and restores the operand's sign; NumDigits' positive and negative arms are mirror images over the same table entry and the table index is guarded.",
 		[]string{"that the table contents and the float estimate are right (numeric; initialisation code)"})
 	prop("C20", "Rounding modes bracket each other and rounding is monotone",
-		[]string{"C20.R1", "C20.R2", "C01.R1", "C01.R2", "C09.R1", "C20.R5", "C05.R4", "C01.R5", "C01.R6", "C02.R5", "C09.R5", "C10.R3"},
+		[]string{"C20.R1", "C20.R2", "C01.R1", "C01.R2", "C09.R1", "C20.R5", "C05.R4", "C01.R5", "C01.R6", "C02.R5", "C09.R5", "C10.R3", "C02.R6"},
 		"Decides the structural causes of bracketing/mirroring: exhaustive, distinct dispatch of the eight modes; each decision function has exactly its mode's truth table over neg × sign(half) (so floor/ceiling are complementary in neg, directed modes ignore half, half modes ignore neg); every caller hands the decision the true sign and a real half comparison; no digit-dropping path bypasses it; Sub is add with only y's sign flipped.",
 		[]string{"the relational inequalities between the eight results themselves; monotonicity and scaling laws (numeric)"})
 }
